@@ -16,7 +16,10 @@ use futures::{
     stream::StreamExt,
 };
 use std::collections::hash_map::RandomState;
+#[cfg(not(all(transparencies_stretto_verif, kani)))]
 use std::collections::HashMap;
+#[cfg(all(transparencies_stretto_verif, kani))]
+use crate::verif_kmap::HashMap;
 use std::hash::{BuildHasher, Hash};
 use std::marker::PhantomData;
 use std::sync::atomic::{AtomicBool, Ordering};
@@ -785,3 +788,7 @@ impl_builder!(AsyncCacheBuilder);
 impl_async_cache!(AsyncCache, AsyncCacheBuilder, Item);
 impl_cache_processor!(CacheProcessor, Item);
 impl_cache_cleaner!(CacheCleaner, CacheProcessor, Item);
+
+#[cfg(all(transparencies_stretto_verif, any(kani, test)))]
+#[path = "/verif/harness/h_cache_async.rs"]
+mod verif_harness;
